@@ -288,13 +288,22 @@ def run(ctx):
     ctx.exhaustive = True
 
     # ---- R: every layout of the model-checked configurations through the real code
-    rcfgs = [c for c in cfgs if c[1] * c[2] <= (12 if ctx.tier == "quick" else 18)]
-    jobs = []
-    for cfg in rcfgs:
-        jobs += layout_jobs(cfg)
-    jobs += layout_jobs(cfgs[0], explicit=True, tag="explicit_targets")
-    cases = core.run_jobs("prox_worker", jobs, env={"NUMBA_DISABLE_JIT": "1"})
-    judge_and_handle(ctx, cases, "replay_layouts", "R", workers=4, parallel=4)
+    # quick: every configuration of <= 12 cells; thorough: <= 15 cells plus the unit 4x4 grid (65 536 layouts),
+    # one configuration at a time so memory and the judge batches stay bounded
+    if ctx.tier == "quick":
+        rcfgs = [c for c in cfgs if c[1] * c[2] <= 12]
+    else:
+        rcfgs = [c for c in cfgs if c[1] * c[2] <= 15 or c[0] == "4x4_E"]
+    cases = []
+    for gi, group in enumerate([rcfgs] if ctx.tier == "quick" else [[c] for c in rcfgs]):
+        jobs = []
+        for cfg in group:
+            jobs += layout_jobs(cfg)
+        if gi == 0:
+            jobs += layout_jobs(cfgs[0], explicit=True, tag="explicit_targets")
+        cases = core.run_jobs("prox_worker", jobs, env={"NUMBA_DISABLE_JIT": "1"})
+        judge_and_handle(ctx, cases, "replay_layouts_%d" % gi, "R", workers=4, parallel=4 if ctx.tier == "quick" else 8,
+                         timeout=3 * 3600)
     for c in cases[:2000:700]:
         ctx.sample({"kind": "replay", "img": c["img"], "metric": c["metric"], "maxn": c["maxn"],
                     "prox2": c.get("prox"), "alloc": c.get("alloc"), "events": len(c["events"])})
